@@ -36,6 +36,7 @@ Not provable at full strength — the unchanged code violates the hypotheses, ne
 import OpenFGAVerif.Proofs.CacheTimeline
 import OpenFGAVerif.Gen.CacheCtl
 import OpenFGAVerif.Props.ReqClone
+import OpenFGAVerif.Props.C10
 
 namespace OpenFGAVerif.C11
 open OpenFGAVerif.CacheTimeline
